@@ -261,8 +261,29 @@ type refResolver struct {
 	types *dynamicpb.Types
 }
 
+// withoutMessageSet returns copies of the descriptors in which message_set_wire_format is cleared:
+// the Go protobuf runtime refuses to link MessageSet messages, and the reference resolver only needs
+// the extension and message types, never that option. The inputs are not modified.
+func withoutMessageSet(fdps []*descriptorpb.FileDescriptorProto) []*descriptorpb.FileDescriptorProto {
+	var fix func(ms []*descriptorpb.DescriptorProto)
+	fix = func(ms []*descriptorpb.DescriptorProto) {
+		for _, m := range ms {
+			if m.GetOptions().GetMessageSetWireFormat() {
+				m.Options.MessageSetWireFormat = nil
+			}
+			fix(m.NestedType)
+		}
+	}
+	out := make([]*descriptorpb.FileDescriptorProto, len(fdps))
+	for i, f := range fdps {
+		out[i] = proto.Clone(f).(*descriptorpb.FileDescriptorProto)
+		fix(out[i].MessageType)
+	}
+	return out
+}
+
 func newRefResolver(fdps []*descriptorpb.FileDescriptorProto) (*refResolver, error) {
-	files, err := protodesc.NewFiles(&descriptorpb.FileDescriptorSet{File: fdps})
+	files, err := protodesc.NewFiles(&descriptorpb.FileDescriptorSet{File: withoutMessageSet(fdps)})
 	if err != nil {
 		return nil, err
 	}
